@@ -1,19 +1,32 @@
 SPEC_PART = dict(
     props_file="C11_hll",
     legs=[dict(family="hll", focus="codec", oracles=["twin_ok", "prop_ok"], profiles=["debug", "release"],
-               mask=[1, 2, 3, 4, 5, 7, 8], n_quick=40, n_thorough=500)],
+               mask=[1, 2, 3, 4, 5, 7, 8, 30, 31], n_quick=40, n_thorough=500, panic_is_violation=True)],
     trusted=["hll: Model/HllCodec.v mirrors HllSketch::serialize / deserialize by hand; tied byte for byte (serialize) and state for "
              "state (deserialize, then every further observation) by the correspondence run",
              "hll: the bit-cast identity float_of_bits (bits_of_float f) = f for the three f64 fields of array images is not proved "
-             "(est_reread); the correspondence run compares hip/kxq0/kxq1 of original and copy bit for bit"],
-    assumptions=["hll: coupons with a value field in 1..63; 4 <= lg_k <= 21"],
-    covers="hll (all modes / types): deserialize(serialize(s)) = Ok s' for every well-formed sketch, in particular every state "
-           "reachable by updates, with s' = s in list mode (8 slots, same coupons: the repaired defect D1), the same coupon set / lg "
-           "size / count and a valid rebuilt table in set mode, the Array4 invariant for the same register file / cur_min / "
-           "num_at_cur_min in Hll4, the same registers and num_zeros in Hll6/Hll8, the out-of-order flag kept; the copy is again a "
-           "well-formed representation of the same abstract state, so C02's update theorems and C03's merge theorems apply to it "
-           "(partial for Hll6: the padding byte; estimator floats modulo the unproved bit-cast identity). Tie: twins -- group 0 forked "
-           "through serialize/deserialize at random points of the stream, group 1 not; dumps, estimates, bounds and re-serialized images "
-           "taken at the same positions must be identical across the twins and equal to the Spec, through promotions, set growth, "
-           "cur_min shifts and aux exceptions after the fork (debug + release).",
+             "(est_reread); the correspondence run compares hip/kxq0/kxq1 of original and copy bit for bit",
+             "hll: est_ok (the estimator fields of the sketch, written and decoded again, are finite and non-negative, so that the "
+             "reader's check of fix 08d9c35 accepts the sketch's own image) is a HYPOTHESIS of the round-trip theorems; true of "
+             "every sketch the crate builds, not proved (binary64 sums); exhibited on concrete sketches (c11_hll_example) and "
+             "checked on every image of the correspondence run (op 8 / op 31 must not return Err)"],
+    assumptions=["hll: coupons with a value field in 1..63; 4 <= lg_k <= 21", "hll: est_ok (see trusted)"],
+    covers="hll (all modes / types): deserialize(serialize(s)) = Ok s' for every well-formed sketch with est_ok, in particular every "
+           "state reachable by updates, with s' = s in list mode (8 slots, same coupons: the repaired defect D1), the same coupon set "
+           "/ lg size / count and a valid rebuilt table in set mode, the Array4 invariant for the same register file / cur_min / "
+           "num_at_cur_min in Hll4, the same registers and num_zeros in Hll6/Hll8; the estimator of the copy is est_reread of the "
+           "original's: kxq0 / kxq1 decoded again, the out-of-order flag kept, the HIP accumulator decoded again for an in-order "
+           "sketch and ZERO for an out-of-order one (the reader's set_out_of_order). The copy is again a well-formed source "
+           "(c11_hll_copy_is_wellformed, all modes incl. Hll6), and 'the copy behaves identically under further updates' is "
+           "c11_hll_copy_same_under_updates: original and copy, fed the same further coupons, are never stuck and keep the same "
+           "lg_k, mode, count, coupon set and registers (via c11_hll_source_updates / _abs: the update theorems of C02 from ANY "
+           "well-formed source, not only from a fresh sketch). The bridge c11_hll_deserialized_is_source: what the reader returns "
+           "for a canonical image is a well-formed source. NOT proved: equality of the estimator VALUES of original and copy "
+           "(bit-cast identity) and byte-identical re-serialization in general -- checked: op 31 on every sketch (both twins) and "
+           "op 22 on union results require serialize(deserialize(serialize s)) = serialize s, byte for byte when the image lists "
+           "no Hll4 exceptions, up to the order of the exception list otherwise (the aux table is rebuilt); fix e763c00 came from "
+           "this check. Tie: twins -- group 0 forked through serialize/deserialize at random points of the stream, group 1 not; "
+           "dumps, estimates, bounds, images (exception list order-normalised, exceptions included) and the merge of the sketch into "
+           "a fresh union taken at the same positions must be identical across the twins and equal to the Spec, through promotions, "
+           "set growth, cur_min shifts and aux exceptions after the fork (debug + release; any panic is a violation).",
 )
